@@ -989,3 +989,6 @@ M("c15-dropped-equality-not-freed", "C15", "cola/libtopology/orthogonal_topology
   "                        delete constraint;\n                        it = valid.erase(it);", "                        it = valid.erase(it);", mention=["GENERATED-CONSTRAINTS-FREED"])
 M("c15-thrown-message-from-local", "C15", "cola/libvpsc/solve_VPSC.cpp",
   "            static std::string message;\n", "            std::string message;\n", mention=["THROWN-POINTER-OUTLIVES-THROW"])
+M("c15-boundary-edges-freed-in-run-only", "C15", "cola/libcola/cola.cpp",
+  "        for(vector<straightener::Edge*>::iterator e=cedges.begin();\n                e!=cedges.end();++e) {\n            delete *e;\n        }\n        cedges.clear();\n    } \n}",
+  "        cedges.clear();\n    } \n}", mention=["ITERATION-EDGES-FREED", "runOnce"])
